@@ -6,6 +6,8 @@
 //   can <enc> <cp>                         -> ok 0|1       (fXCoder->canTranscodeTo)
 //   doc <enc> <feats> <10|11> <tree...>    build the tree through the DOM API, serialise, re-parse, compare,
 //        serialise again; answer: one canonical line (see docCase)
+//   seq <step> | <step> ...                one DOMLSSerializer instance writes several documents (see seqCase)
+//   fseq <enc> <unrep> <ver> (<mode> <hex16>)+  one XMLFormatter formats several buffers (see doFseq)
 //   src <enc> <feats> <hexbytes>           same, but the first tree is parsed from the given document bytes
 //
 // feats: letters followed by 0/1: x xml-declaration, s split-cdata-sections, d discard-default-content, b BOM,
@@ -111,13 +113,13 @@ static std::string doCan(const std::vector<std::string>& a) {
 }
 
 // ---------------------------------------------------------------------------------------------------
-struct Feats { bool x = true, s = true, d = true, b = false, n = true, e = true, z = false; };
+struct Feats { bool x = true, s = true, d = true, b = false, n = true, e = true, z = false, p = false; int l = 0; };
 static Feats parseFeats(const std::string& f) {
     Feats r;
     for (size_t i = 0; i + 1 < f.size(); i += 2) {
         bool v = f[i + 1] == '1';
         switch (f[i]) { case 'x': r.x = v; break; case 's': r.s = v; break; case 'd': r.d = v; break;
-                        case 'b': r.b = v; break; case 'n': r.n = v; break; case 'e': r.e = v; break; case 'z': r.z = v; break; }
+                        case 'b': r.b = v; break; case 'n': r.n = v; break; case 'e': r.e = v; break; case 'z': r.z = v; break; case 'p': r.p = v; break; case 'l': r.l = f[i + 1] - '0'; break; }
     }
     return r;
 }
@@ -257,9 +259,9 @@ static void dumpResolved(std::string& o, const DOMNode* n) {
 }
 
 struct SerResult { std::string status, errs; std::vector<XMLByte> bytes; };
-static SerResult serialise(DOMImplementationLS* impl, DOMNode* n, const char* enc, const Feats& f) {
+static SerResult serialise(DOMImplementationLS* impl, DOMNode* n, const char* enc, const Feats& f, DOMLSSerializer* reuse = 0) {
     SerResult r;
-    DOMLSSerializer* ser = impl->createLSSerializer();
+    DOMLSSerializer* ser = reuse ? reuse : impl->createLSSerializer();
     DOMLSOutput* out = impl->createLSOutput();
     MemBufFormatTarget tgt;
     SerErrs eh;
@@ -271,6 +273,9 @@ static SerResult serialise(DOMImplementationLS* impl, DOMNode* n, const char* en
         c->setParameter(XMLUni::fgDOMWRTDiscardDefaultContent, f.d);
         c->setParameter(XMLUni::fgDOMWRTBOM, f.b);
         c->setParameter(XMLUni::fgDOMWRTEntities, f.e);
+        c->setParameter(XMLUni::fgDOMWRTFormatPrettyPrint, f.p);
+        static const XMLCh crlf[] = { 13, 10, 0 }, cr[] = { 13, 0 };
+        ser->setNewLine(f.l == 1 ? crlf : f.l == 2 ? cr : 0);
         XMLCh* e16 = XMLString::transcode(enc);
         out->setEncoding(e16);
         XMLString::release(&e16);
@@ -285,8 +290,106 @@ static SerResult serialise(DOMImplementationLS* impl, DOMNode* n, const char* en
     r.errs = eh.log.empty() ? "-" : eh.log;
     r.bytes.assign(tgt.getRawBuffer(), tgt.getRawBuffer() + tgt.getLen());
     out->release();
-    ser->release();
+    if (!reuse) ser->release();
     return r;
+}
+
+// re-parse [bytes] and compare with [doc]: " reparse=.. eq=.. res=.."
+static std::string evalOutput(DOMDocument* doc, const std::string& resolved0, const std::vector<XMLByte>& bytes, const Feats& f) {
+    XercesDOMParser p1; ParseErrs pe1;
+    p1.setDoNamespaces(f.n); p1.setErrorHandler(&pe1); p1.setCreateEntityReferenceNodes(f.e);
+    std::string rp = "ok";
+    try {
+        MemBufInputSource is(bytes.data(), bytes.size(), "serN");
+        p1.parse(is);
+        if (!pe1.first.empty()) rp = pe1.first;
+    } catch (const XMLException& e) { rp = "exc:" + excName(e); }
+    catch (const DOMException& e) { rp = "exc:DOMException:" + std::to_string((int)e.code); }
+    catch (const SAXException&) { rp = "exc:SAXException"; }
+    catch (...) { rp = "exc:unknown"; }
+    std::string out = " reparse=" + rp;
+    DOMDocument* d2 = p1.getDocument();
+    if (rp == "ok" && d2) {
+        std::string eq = "0";
+        if (doc->isEqualNode(d2)) eq = "1";
+        else for (int lvl = 1; lvl <= 3 && eq == "0"; lvl++) {
+            std::string da, db; bool mg = (lvl & 1) != 0, dn = (lvl & 2) != 0;
+            dump(da, doc, mg, dn); dump(db, d2, mg, dn);
+            if (da == db) eq = (lvl == 1 ? "merged" : lvl == 2 ? "nsdecl" : "merged+nsdecl");
+        }
+        std::string r2; dumpResolved(r2, d2);
+        out += " eq=" + eq + " res=" + (r2 == resolved0 ? "1" : "0");
+    } else out += " eq=- res=-";
+    return out;
+}
+
+// seq <step> | <step> | ...   with <step> = <enc> <feats> <10|11> D <nchild> node*
+// ONE DOMLSSerializer instance writes the documents one after the other; every step is also written by a fresh
+// instance.  Answer per step: ser= errs= bytes= reparse= eq= res= fresh=<1|0> [freshser= freshbytes=], steps joined by " | "
+static std::string seqCase(const std::vector<std::string>& a) {
+    static const XMLCh ls[] = { 'L', 'S', 0 };
+    DOMImplementation* impl = DOMImplementationRegistry::getDOMImplementation(ls);
+    DOMImplementationLS* implLS = (DOMImplementationLS*)impl;
+    DOMLSSerializer* ser = implLS->createLSSerializer();
+    std::string out;
+    size_t i = 1;
+    while (i < a.size()) {
+        std::vector<std::string> st; st.push_back("doc");
+        while (i < a.size() && a[i] != "|") st.push_back(a[i++]);
+        i++;
+        if (!out.empty()) out += " | ";
+        if (st.size() < 6) { out += "bad-step"; continue; }
+        const char* enc = encName(st[1]);
+        if (!enc) { out += "bad-step"; continue; }
+        Feats f = parseFeats(st[2]);
+        DOMDocument* doc = 0;
+        try {
+            doc = impl->createDocument();
+            if (st[3] == "11") { static const XMLCh v11[] = { '1', '.', '1', 0 }; doc->setXmlVersion(v11); }
+            else if (st[3] == "1e") { static const XMLCh v10[] = { '1', '.', '0', 0 }; doc->setXmlVersion(v10); }
+            Builder b(st, 4, doc, f.n);
+            if (b.next() != "D") { doc->release(); out += "bad-step"; continue; }
+            int nc = atoi(b.next().c_str());
+            for (int k = 0; k < nc; k++) { DOMNode* c = b.node(); if (c) doc->appendChild(c); }
+            if (!b.err.empty()) { doc->release(); out += b.err; continue; }
+        } catch (const DOMException& e) {
+            if (doc) doc->release();
+            out += "build-exc:DOMException:" + std::to_string((int)e.code); continue;
+        }
+        std::string resolved0; dumpResolved(resolved0, doc);
+        SerResult s1 = serialise(implLS, doc, enc, f, ser);
+        SerResult s0 = serialise(implLS, doc, enc, f);
+        out += "ser=" + s1.status + " errs=" + s1.errs + " bytes=" + showHex(s1.bytes.data(), s1.bytes.size(), 2);
+        out += evalOutput(doc, resolved0, s1.bytes, f);
+        bool same = s0.status == s1.status && s0.bytes == s1.bytes && s0.errs == s1.errs;
+        out += std::string(" fresh=") + (same ? "1" : "0");
+        if (!same) out += " freshser=" + s0.status + " fresherrs=" + s0.errs + " freshbytes=" + showHex(s0.bytes.data(), s0.bytes.size(), 2);
+        doc->release();
+    }
+    ser->release();
+    return out;
+}
+
+// fseq <enc> <unrep> <10|11> (<mode> <hex16>)+ : ONE XMLFormatter formats the buffers one after the other, each
+// with its own escape mode (formatBuf's escapeFlags argument); answer: ok <hexbytes of step 1> <hexbytes of step 2> ...
+static std::string doFseq(const std::vector<std::string>& a) {
+    const char* enc = encName(a[1]);
+    if (!enc) return "bad-request";
+    int unrep = atoi(a[2].c_str());
+    MemBufFormatTarget tgt;
+    std::string out = "ok";
+    try {
+        XMLFormatter f(enc, a[3] == "11" ? "1.1" : "1.0", &tgt, XMLFormatter::NoEscapes, (XMLFormatter::UnRepFlags)unrep);
+        for (size_t i = 4; i + 1 < a.size(); i += 2) {
+            std::vector<XMLCh> s = toStr(a[i + 1]);
+            tgt.reset();
+            try {
+                f.formatBuf(s.data(), s.size() - 1, (XMLFormatter::EscapeFlags)atoi(a[i].c_str()));
+                out += " " + showHex(tgt.getRawBuffer(), tgt.getLen(), 2);
+            } catch (const XMLException& e) { out += " !" + excName(e); }
+        }
+    } catch (const XMLException& e) { return "err " + excName(e); }
+    return out;
 }
 
 static std::string docCase(const std::vector<std::string>& a, bool fromSource) {
@@ -316,6 +419,7 @@ static std::string docCase(const std::vector<std::string>& a, bool fromSource) {
         } else {
             doc = impl->createDocument();
             if (a[3] == "11") { static const XMLCh v11[] = { '1', '.', '1', 0 }; doc->setXmlVersion(v11); }
+            else if (a[3] == "1e") { static const XMLCh v10[] = { '1', '.', '0', 0 }; doc->setXmlVersion(v10); }
             Builder b(a, 4, doc, f.n);
             if (b.next() != "D") { doc->release(); return "bad-request"; }
             int nc = atoi(b.next().c_str());
@@ -424,6 +528,8 @@ int main() {
             else if (a.size() == 3 && a[0] == "can") r = doCan(a);
             else if (a.size() == 7 && a[0] == "sweep") r = doSweep(a);
             else if (a.size() >= 6 && a[0] == "doc") r = docCase(a, false);
+            else if (a.size() >= 6 && a[0] == "seq") r = seqCase(a);
+            else if (a.size() >= 6 && a[0] == "fseq") r = doFseq(a);
             else if (a.size() == 4 && a[0] == "src") r = docCase(a, true);
         } catch (const XMLException& e) { r = "uncaught:" + excName(e); }
         catch (const DOMException& e) { r = "uncaught:DOMException:" + std::to_string((int)e.code); }
